@@ -5,6 +5,8 @@ character outside `[A-Za-z0-9./:_+*=?#&,!@-]` is written `~hh` (two hex digits);
 import WpModel.Model.Wire
 import WpModel.Model.Resources
 import WpModel.Model.ResourcesDoc
+import WpModel.Model.ResourcesUrl
+import WpModel.Model.ResourcesTrace
 
 namespace Wp.Drive.Resources
 open Wp Wp.Res
@@ -18,6 +20,10 @@ def hexVal (c : Char) : Option Nat :=
 
 def decodeChars : List Char → Option (List Char)
   | [] => some []
+  | '~' :: 'u' :: a :: b :: c :: d :: e :: f :: rest => do
+    let n ← [a, b, c, d, e, f].foldlM (fun acc ch => (hexVal ch).map (acc * 16 + ·)) 0
+    let tail ← decodeChars rest
+    pure (Char.ofNat n :: tail)
   | '~' :: a :: b :: rest => do
     let x ← hexVal a
     let y ← hexVal b
@@ -34,7 +40,9 @@ def hexDigit (n : Nat) : Char := if n < 10 then Char.ofNat ('0'.toNat + n) else 
 
 def enc (s : String) : String :=
   "'" ++ String.ofList (s.toList.flatMap (fun c =>
-    if plainChar c then [c] else ['~', hexDigit (c.toNat / 16 % 16), hexDigit (c.toNat % 16)]))
+    if plainChar c then [c]
+    else if c.toNat < 256 then ['~', hexDigit (c.toNat / 16 % 16), hexDigit (c.toNat % 16)]
+    else ['~', 'u'] ++ [5, 4, 3, 2, 1, 0].map (fun i => hexDigit (c.toNat / 16 ^ i % 16))))
 
 def str? : Sx → Option String
   | .atom a => match a.toList with
@@ -208,6 +216,7 @@ def imgRef? : Sx → Option Doc.ImgRef
       | .atom "background" => some .background
       | .atom "liststyle" => some .listStyle
       | .atom "content" => some .content
+      | .atom "borderimage" => some .borderImage
       | _ => none
     pure ⟨kind, ← ostr? u, ← ostr? a, ← orient? o, ← ostr? m⟩
   | _ => none
@@ -216,12 +225,22 @@ def fsEntry? : Sx → Option (String × Nat)
   | .list [p, c] => do pure (← str? p, ← c.nat?)
   | _ => none
 
+def svgItem? : Sx → Option Doc.SvgItem
+  | .list [.atom "image", u] => do pure (.image (← ostr? u))
+  | .list [.atom "use", u] => do pure (.useExternal (← str? u))
+  | _ => none
+
+def svgEntry? : Sx → Option (Nat × List Doc.SvgItem)
+  | .list [c, .list items] => do pure (← c.nat?, ← allSome svgItem? items)
+  | _ => none
+
 def doc? : Sx → Option Doc.Document
-  | .list [.atom "doc", dev, .list els, .list imgs, .list metas, .list annots, fetcher, opts, .list fs] => do
+  | .list [.atom "doc", dev, .list els, .list imgs, .list metas, .list annots, fetcher, opts, .list fs, .list svgs] => do
     let table ← allSome fsEntry? fs
     pure { device := ← str? dev, styles := ← allSome styleEl? els, images := ← allSome imgRef? imgs,
            metaAttachments := ← allSome str? metas, annotAttachments := ← allSome str? annots,
-           fetcher := ← fetcher? fetcher, opts := ← opts? opts, fs := fun p => table.lookup p }
+           fetcher := ← fetcher? fetcher, opts := ← opts? opts, fs := fun p => table.lookup p,
+           svgInfo := ← allSome svgEntry? svgs }
   | _ => none
 
 def showStage : Except Exc Unit → String
@@ -238,13 +257,179 @@ def showDocOut (o : Doc.DocOut) : String :=
     | .ok _ => ",".intercalate (o.boxes.map showBoxes)
     | .error _ => "") ++ "]" ++
   " render=" ++ showStage o.render ++
-  " att=" ++ showLog o.attachLog ++
+  " att=" ++ showLog o.attachLog ++ " paint=" ++ showLog o.paintLog ++
   " embedded=" ++ (if writeOk then showNats o.embedded else "[]") ++
   " annots=[" ++ (if writeOk then ",".intercalate (o.annots.filterMap (fun a => a.map toString)) else "") ++ "]" ++
   " opens=" ++ (match o.write with
     | .error ⟨"FileNotFoundError", _⟩ => "-"
     | _ => "[" ++ ",".intercalate ((o.opens.mergeSort (fun a b => decide (a ≤ b))).map enc) ++ "]") ++
   " write=" ++ showStage o.write ++ " absent=" ++ (if writeOk then "eq" else "-")
+
+/-! ### branch tags: which branch of the model a case takes (diagnostics for the evidence histogram) -/
+
+def srcTag : Src → String
+  | .lazyLocal _ => "lazy-local"
+  | .memOriginal => "original-bytes"
+  | .memReencoded => "reencoded"
+
+def imageTag (cache : Cache) (fetcher : Fetcher) (opts : Opts) (req : Req) : String :=
+  match cache.find? req.key with
+  | some (some _) => "img:cache-hit-image"
+  | some none => "img:cache-hit-failure"
+  | none =>
+    match fetcher req.url with
+    | .raises _ => "img:fetcher-raises"
+    | .notDict => "img:not-a-dict-escapes"
+    | .resp r =>
+      match readAll r with
+      | .error e => if e.isUrlFetching || e.isImageLoading then "img:read-error-caught-class" else
+          (if r.fileObj.isSome then "img:read-error-escapes" else "img:no-string-no-file-escapes")
+      | .ok c =>
+        let svgMime := effectiveMime req.forcedMime r == some "image/svg+xml"
+        if svgMime && c.xmlOk then "img:svg-by-mime"
+        else match c.pillow with
+          | some p =>
+            let fn := if urlScheme (r.redirected.getD req.url) == "file" then some (urlFilename (r.redirected.getD req.url)) else none
+            let (fmt, src) := rasterInit p req.orient fn opts
+            "img:raster-" ++ fmt ++ "-" ++ srcTag src
+          | none => if svgMime then "img:error-svg-mime" else if c.xmlOk then "img:svg-last-chance" else "img:error-undecodable"
+
+def imagesTags (fetcher : Fetcher) (opts : Opts) : Cache → List Req → List String
+  | _, [] => []
+  | cache, req :: rest =>
+    imageTag cache fetcher opts req :: imagesTags fetcher opts (getImage cache fetcher opts req).1 rest
+
+def fetchedTag (pre : String) : Fetched → String
+  | .raises _ => pre ++ ":fetcher-raises"
+  | .notDict => pre ++ ":not-a-dict"
+  | .resp r =>
+    if r.hasString then pre ++ (if r.fileObj.isSome then ":string+file-obj" else ":string")
+    else match r.fileObj with
+      | none => pre ++ ":no-string-no-file"
+      | some fo => pre ++ (if fo.readErr.isSome then ":read-error" else if fo.closeErr then ":file-obj-close-fails" else ":file-obj")
+
+def fontSrcTags (fetcher : Fetcher) : List FontSrc → List String
+  | [] => ["font:exhausted-warning"]
+  | src :: rest =>
+    match src.target with
+    | none => (match src with
+        | .external _ => "font:broken-url"
+        | .internal => "font:internal"
+        | .«local» _ found _ _ => if found then "font:local-name-mismatch" else "font:local-no-match") :: fontSrcTags fetcher rest
+    | some url =>
+      let pre := match src with | .«local» .. => "font:local-fetch" | _ => "font:url-fetch"
+      match (fetch (fetcher url) url readAll).2 with
+      | .error _ => (pre ++ "-fails") :: fontSrcTags fetcher rest
+      | .ok c =>
+        if c.woff && !c.woffOk then "font:woff-decode-fails" :: fontSrcTags fetcher rest
+        else if c.fontOk then [pre ++ "-installed"]
+        else "font:fontconfig-rejects" :: fontSrcTags fetcher rest
+
+def facesTags (fetcher : Fetcher) : FontState → List FontFace → List String
+  | _, [] => []
+  | st, face :: rest =>
+    (if st.loaded.contains face.key then ["font:already-loaded"] else fontSrcTags fetcher face.srcs) ++
+      facesTags fetcher (addFontFace fetcher st face).1 rest
+
+mutual
+  partial def itemsTags (d : String) : Bool → List CssItem → List String
+    | _, [] => []
+    | _, .rule _ :: rest => "css:rule" :: itemsTags d true rest
+    | _, .other :: rest => "css:other-at-rule" :: itemsTags d true rest
+    | ign, .importRule url media target :: rest =>
+      if ign then "css:import-too-late" :: itemsTags d ign rest
+      else match url, media with
+        | none, _ => "css:import-no-url" :: itemsTags d ign rest
+        | some _, none => "css:import-invalid-media" :: itemsTags d ign rest
+        | some u, some m =>
+          if !evaluateMedia m d then "css:import-media-mismatch" :: itemsTags d ign rest
+          else
+            let o := runSheet d false u target
+            (if o.err.isSome then
+              (if o.absorbFetchError.err.isSome then "css:import-escapes" else "css:import-fetch-error-logged")
+             else "css:import-loaded") :: sheetTags d false target ++ itemsTags d ign rest
+    | ign, .mediaRule media items :: rest =>
+      match media with
+      | none => "css:media-invalid" :: itemsTags d ign rest
+      | some m =>
+        if !evaluateMedia m d then "css:media-mismatch" :: itemsTags d true rest
+        else "css:media-entered" :: itemsTags d true items ++ itemsTags d true rest
+    | _, .fontFace complete _ :: rest =>
+      (if complete then "css:font-face" else "css:font-face-incomplete") :: itemsTags d true rest
+  partial def sheetTags (d : String) (checkMime : Bool) : Sheet → List String
+    | .mk fetched items =>
+      fetchedTag "sheet" fetched ::
+      (match fetched with
+       | .resp r =>
+         if checkMime && r.mime != some "text/css" then ["sheet:wrong-mime-empty"]
+         else match cssSourceBody checkMime r with
+           | .ok true => itemsTags d false items
+           | _ => []
+       | _ => [])
+end
+
+def styleElTags (d : String) (el : StyleEl) : List String :=
+  if styleMime el.typeAttr != "text/css" then ["el:type-not-css"]
+  else if !evaluateMedia (styleMedia el.mediaAttr) d then ["el:media-mismatch"]
+  else if !el.isLink then "el:style" :: itemsTags d false el.items
+  else if (el.href.getD "") == "" then ["el:link-no-href"]
+  else if !hasLinkType el.rel "stylesheet" || hasLinkType el.rel "alternate" then ["el:link-rel-skipped"]
+  else match resolveHref el.href el.joined with
+    | none => ["el:link-unresolvable"]
+    | some _ => "el:link-fetched" :: sheetTags d true el.target
+
+def svgTags (fetcher : Fetcher) (opts : Opts) : Cache → List Doc.SvgItem → List String
+  | _, [] => []
+  | cache, .useExternal _ :: rest => "svg:external-use-direct-call" :: svgTags fetcher opts cache rest
+  | cache, .image url :: rest =>
+    let r := getImage cache fetcher opts ⟨url.getD "None", .fromImage, some "image/*"⟩
+    match r.2.2 with
+    | .error _ => [(if url.isNone then "svg:image-no-href" else "svg:image") ++ "-escapes-swallowed"]
+    | .ok v => ((if url.isNone then "svg:image-no-href" else "svg:image") ++ (if v.isSome then "-loaded" else "-none")) ::
+        svgTags fetcher opts r.1 rest
+
+def urljoinTag (base url : List Char) : String :=
+  if base.isEmpty then "join:no-base"
+  else if url.isEmpty then "join:empty-reference"
+  else
+    let b := Url.urlparse base []
+    let u := Url.urlparse url b.scheme
+    if u.scheme != b.scheme then "join:other-scheme"
+    else if !Url.inList Url.usesRelative u.scheme then "join:non-hierarchical-scheme"
+    else if Url.inList Url.usesNetloc u.scheme && !u.netloc.isEmpty then "join:has-authority"
+    else if u.path.isEmpty && u.params.isEmpty then (if u.query.isEmpty then "join:fragment-only" else "join:query-only")
+    else if u.path.head? == some '/' then "join:absolute-path"
+    else if (splitOnChar '/' u.path).any (fun s => s == ['.', '.']) then "join:merge-with-dotdot"
+    else "join:merge"
+
+def tagsFor (cmd : String) (args : List Sx) : Option (List String) :=
+  match cmd, args with
+  | "fetch", [f, _, b] => do
+    let f ← fetched? f
+    pure [fetchedTag "fetch" f ++ (match b with | .atom "ok" => "/body-returns" | _ => "/body-raises")]
+  | "images", [o, f, .list reqs] => do
+    pure (imagesTags (← fetcher? f) (← opts? o) [] (← allSome req? reqs))
+  | "fonts", [f, .list faces] => do pure (facesTags (← fetcher? f) {} (← allSome face? faces))
+  | "css", [d, .list els] => do
+    let d ← str? d
+    pure ((← allSome styleEl? els).flatMap (styleElTags d))
+  | "sheet", [d, c, _, s] => do pure (sheetTags (← str? d) (← c.bool?) (← sheet? s))
+  | "attach", [f, u] => do pure [fetchedTag "attachment" ((← fetcher? f) (← str? u))]
+  | "urljoin", [b, u] => do pure [urljoinTag (← str? b).toList (← str? u).toList]
+  | "doc", [d] => do
+    let d ← doc? d
+    let o := Doc.run d
+    let cache := (Doc.runRefs d.fetcher d.opts [] d.images).2.2.1
+    pure ((d.styles.flatMap (styleElTags d.device)) ++
+      (match o.render with | .ok _ => ["doc:render-completes"] | .error _ => ["doc:render-escapes"]) ++
+      (match o.render, o.write with
+        | .ok _, .ok _ => ["doc:write-completes"]
+        | .ok _, .error ⟨"FileNotFoundError", _⟩ => ["doc:write-local-file-missing"]
+        | .ok _, .error _ => ["doc:write-escapes"]
+        | _, _ => []) ++
+      (if o.opens.isEmpty then [] else ["doc:local-file-read"]) ++
+      ((d.images.filterMap (Doc.svgOfRef cache)).flatMap (fun c => svgTags d.fetcher d.opts cache ((d.svgInfo.lookup c).getD []))))
+  | _, _ => none
 
 /-! ### commands -/
 
@@ -322,6 +507,34 @@ def handle (cmd : String) (args : List Sx) : Option String :=
     | "path" => pure (enc (urlFilename u))
     | "abs" => pure (toString (urlIsAbsolute u))
     | _ => none
+  -- `trace full|obs (ev …) (named …)`: the verified trace checkers on a recorded log
+  | "trace", [.atom which, .list evs, named] => do
+    let evs ← allSome (fun e => match e with
+      | .atom "body" => some Ev.body
+      | .atom "close" => some Ev.close
+      | .atom "closewarn" => some Ev.closeWarn
+      | .list [.atom "call", u] => (str? u).map Ev.call
+      | _ => none) evs
+    let shape := if which == "full" then traceOk 0 evs else obsOk false evs
+    let within ← match named with
+      | .atom "any" => some true
+      | .list ns => (allSome str? ns).map (fun l => callsWithin l evs)
+      | _ => none
+    pure ("shape=" ++ toString shape ++ " within=" ++ toString within)
+  | "urljoin", [b, u] => do
+    pure (enc (String.ofList (Url.urljoin (← str? b).toList (← str? u).toList)))
+  | "iri", [u] => do pure (enc (String.ofList (iriToUri (← str? u).toList)))
+  | "urlattr", [a, b, r] => do
+    let a ← ostr? a
+    let b ← ostr? b
+    pure (encO ((Url.getUrlAttribute (a.map (·.toList)) (b.map (·.toList)) (← r.bool?)).map String.ofList))
+  | "findbase", [h, f] => do
+    let h ← ostr? h
+    let f ← ostr? f
+    pure (encO ((Url.findBaseUrl (h.map (·.toList)) (f.map (·.toList))).map String.ofList))
+  | "urlparse", [u] => do
+    let p := Url.urlparse (← str? u).toList []
+    pure (" ".intercalate ([p.scheme, p.netloc, p.path, p.params, p.query, p.fragment].map (fun x => enc (String.ofList x))))
   | "attr", [.atom which, v, w] => do
     let v ← ostr? v
     match which with
@@ -330,6 +543,7 @@ def handle (cmd : String) (args : List Sx) : Option String :=
     | "rel" => pure (toString (hasLinkType v (← str? w)))
     | _ => none
   | "doc", [d] => do pure (showDocOut (Doc.run (← doc? d)))
+  | "tags", (.atom inner :: rest) => do pure (" ".intercalate (← tagsFor inner rest))
   | _, _ => none
 
 end Wp.Drive.Resources
